@@ -1,0 +1,67 @@
+/* -*- Mode: C; c-basic-offset:4 ; indent-tabs-mode:nil ; -*- */
+/*
+ * See COPYRIGHT in top-level directory.
+ */
+
+#ifndef ABTD_VERIF_H_INCLUDED
+#define ABTD_VERIF_H_INCLUDED
+
+/*
+ * Hooks for the deterministic simulator of the verification tooling.  They are
+ * compiled in only when ABT_VERIF_SIM is defined; otherwise every macro below
+ * expands to nothing and no other file changes its behavior.
+ *
+ * abtv_pre/abtv_post  : scheduling points around atomic operations (see
+ *                       abtd_verif_atomic.h, generated).
+ * abtv_yield          : bare scheduling point (between the two halves of the
+ *                       non-atomic tagged-pointer accesses).
+ * abtv_ctxswitch      : called immediately before every user-level context
+ *                       switch with the context being left (or NULL if it is
+ *                       abandoned) and the context being entered.
+ * ABTV_REACH(name)    : pure counter "this rare branch was taken".
+ * ABTV_EVENT(k, o, w) : linearization-point notification used by white-box
+ *                       reference models (k: event kind, o: object, w: who).
+ */
+#ifdef ABT_VERIF_SIM
+
+void abtv_pre(int kind, const void *addr, const char *file, int line);
+void abtv_post(void);
+void abtv_yield(const char *file, int line);
+void abtv_ctxswitch(const void *p_old, const void *p_new);
+void abtv_reach(int *p_slot, const char *name);
+void abtv_event(int kind, const void *obj, const void *who);
+
+#define ABTV_YIELD() abtv_yield(__FILE__, __LINE__)
+#define ABTV_CTXSWITCH(p_old, p_new) abtv_ctxswitch((p_old), (p_new))
+#define ABTV_REACH(name)                                                       \
+    do {                                                                       \
+        static int abtv_slot_ = 0;                                             \
+        abtv_reach(&abtv_slot_, (name));                                       \
+    } while (0)
+#define ABTV_EVENT(kind, obj, who) abtv_event((kind), (obj), (who))
+
+/* Event kinds. */
+#define ABTV_EV_WAITLIST_ENQUEUE 1
+#define ABTV_EV_WAITLIST_SIGNAL 2
+#define ABTV_EV_WAITLIST_BROADCAST 3
+#define ABTV_EV_WAITLIST_TIMEOUT_UNLINK 4
+#define ABTV_EV_WAITLIST_TIMEOUT_WOKEN 5
+
+#else /* !ABT_VERIF_SIM */
+
+#define ABTV_YIELD()                                                           \
+    do {                                                                       \
+    } while (0)
+#define ABTV_CTXSWITCH(p_old, p_new)                                           \
+    do {                                                                       \
+    } while (0)
+#define ABTV_REACH(name)                                                       \
+    do {                                                                       \
+    } while (0)
+#define ABTV_EVENT(kind, obj, who)                                             \
+    do {                                                                       \
+    } while (0)
+
+#endif /* ABT_VERIF_SIM */
+
+#endif /* ABTD_VERIF_H_INCLUDED */
